@@ -1581,3 +1581,145 @@ func runRoot1(m *Model, r *RuleResult) {
 		})
 	}
 }
+
+// ---------- AXIS-1 ----------
+
+func init() {
+	register(&Rule{
+		ID: "AXIS-1",
+		Doc: "bounding-box tests treat both axes alike (one-sided comparison rule): in package geom, a conjunction that tests a coordinate against the min/max of the same coordinate of two other points (is the point within the span of a segment) " +
+			"contains, for every such test on X, the same test on Y and vice versa. A point that is collinear with a vertical triangle side lies within its X span wherever it is on that line; located in the wrong triangle, the funnel starts from the wrong place",
+		Floor: 1,
+		Ctl:   []string{"internal__geom__axis1.go.txt"},
+		Run:   runAxis1,
+	})
+}
+
+func runAxis1(m *Model, r *RuleResult) {
+	p := m.Pkg(geomPkg)
+	if p == nil {
+		r.undecided("package", "-", "package internal/geom", "not loaded")
+		return
+	}
+	info := p.TypesInfo
+	var decls []*ast.FuncDecl
+	for fn, fd := range m.Decl {
+		if m.DeclPkg[fn] == p && fd.Body != nil {
+			decls = append(decls, fd)
+		}
+	}
+	sort.Slice(decls, func(i, j int) bool { return decls[i].Pos() < decls[j].Pos() })
+	coordAxis := func(e ast.Expr) string {
+		se, ok := stripParens(e).(*ast.SelectorExpr)
+		if !ok {
+			return ""
+		}
+		sel := info.Selections[se]
+		if sel == nil || sel.Kind() != types.FieldVal || !isFloatType(sel.Type()) || !isGeomNamed(derefType(sel.Recv()), "P") {
+			return ""
+		}
+		return sel.Obj().Name()
+	}
+	// spanTest: cmp(coordinate, min|max(coordinates...)) with all coordinates on one axis; returns axis and the axis-erased text
+	spanTest := func(e ast.Expr) (string, string) {
+		be, ok := stripParens(e).(*ast.BinaryExpr)
+		if !ok {
+			return "", ""
+		}
+		if _, isCmp := flipCmp[be.Op]; !isCmp {
+			return "", ""
+		}
+		axis := ""
+		hasMinMax := false
+		okAll := true
+		note := func(a string) {
+			if a == "" {
+				okAll = false
+			} else if axis == "" {
+				axis = a
+			} else if axis != a {
+				okAll = false
+			}
+		}
+		for _, side := range []ast.Expr{be.X, be.Y} {
+			side = stripParens(side)
+			if ce, ok := side.(*ast.CallExpr); ok {
+				if id, ok := ce.Fun.(*ast.Ident); ok {
+					if b, ok := info.ObjectOf(id).(*types.Builtin); ok && (b.Name() == "min" || b.Name() == "max") {
+						hasMinMax = true
+						for _, a := range ce.Args {
+							note(coordAxis(a))
+						}
+						continue
+					}
+				}
+				okAll = false
+				continue
+			}
+			note(coordAxis(side))
+		}
+		if !okAll || !hasMinMax || axis == "" {
+			return "", ""
+		}
+		txt := types.ExprString(be)
+		txt = strings.ReplaceAll(txt, "."+axis, ".#")
+		return axis, txt
+	}
+	for _, fd := range decls {
+		n := 0
+		seen := map[ast.Expr]bool{}
+		ast.Inspect(fd.Body, func(nd ast.Node) bool {
+			be, ok := nd.(*ast.BinaryExpr)
+			if !ok || be.Op != token.LAND || seen[be] {
+				return true
+			}
+			// flatten the outermost conjunction
+			var conj []ast.Expr
+			var flat func(e ast.Expr)
+			flat = func(e ast.Expr) {
+				e = stripParens(e)
+				if b, ok := e.(*ast.BinaryExpr); ok && b.Op == token.LAND {
+					seen[b] = true
+					flat(b.X)
+					flat(b.Y)
+					return
+				}
+				conj = append(conj, e)
+			}
+			flat(be)
+			count := map[string]map[string]int{"X": {}, "Y": {}}
+			any := false
+			for _, c := range conj {
+				if a, txt := spanTest(c); a == "X" || a == "Y" {
+					count[a][txt]++
+					any = true
+				}
+			}
+			if !any {
+				return true
+			}
+			n++
+			key := fmt.Sprintf("span-test-both-axes:%s#%d", astFuncKey(p, fd), n)
+			ctl := m.IsPosctl(fd.Pos())
+			var bad []string
+			for txt, k := range count["X"] {
+				if count["Y"][txt] != k {
+					bad = append(bad, strings.ReplaceAll(txt, ".#", ".X")+" has no counterpart on Y")
+				}
+			}
+			for txt, k := range count["Y"] {
+				if count["X"][txt] != k {
+					bad = append(bad, strings.ReplaceAll(txt, ".#", ".Y")+" has no counterpart on X")
+				}
+			}
+			sort.Strings(bad)
+			if len(bad) == 0 {
+				r.add(Obligation{Key: key, Pos: m.Pos(be.Pos()), Desc: fmt.Sprintf("%d span test(s) on X, the same on Y", len(count["X"])), Verdict: "holds", Control: ctl})
+			} else {
+				r.add(Obligation{Key: key, Pos: m.Pos(be.Pos()), Desc: "a span test on one axis has its counterpart on the other", Verdict: "violation",
+					Detail: strings.Join(bad, "; ") + ": the point is tested against the segment's extent on one axis only, so every point on the line through an axis-parallel segment counts as lying on it", Control: ctl})
+			}
+			return true
+		})
+	}
+}
